@@ -422,14 +422,30 @@ async fn run_send(enumerated: bool) {
     };
     // the receiver grants little credit, so that credit taken by a cancelled send matters
     let credit = pick(&[1u32, 2, 3, 100]);
+    // ... or grants it by hand in steps with pauses in between, during which pending sends wait
+    // for credit (and are cancelled while they wait)
+    let manual_steps: Option<Vec<u32>> = if choice(2) == 1 {
+        let mut left = N_MSGS as u32;
+        let mut v = vec![choice(3)];
+        left -= v[0].min(left);
+        while left > 0 {
+            let g = (1 + choice(3)).min(left);
+            v.push(g);
+            left -= g;
+        }
+        Some(v)
+    } else {
+        None
+    };
     sim::set_config(format!(
-        "variant=send-{} target={} k={} at-wake={} snd-mode={:?} credit={} frames={:?} C[{}] L[{}] {}",
+        "variant=send-{} target={} k={} at-wake={} snd-mode={:?} credit={} manual-grants={:?} frames={:?} C[{}] L[{}] {}",
         if enumerated { "enumerated" } else { "select-loop" },
         plan.target,
         plan.k,
         plan.at_wake,
         snd_mode,
         credit,
+        manual_steps,
         plan.frames,
         ccfg.describe(),
         lcfg.describe(),
@@ -438,6 +454,8 @@ async fn run_send(enumerated: bool) {
     let mut models = Models::none();
     models.link = true;
     models.delivery = true;
+    // no delivery may start without a grant the receiver had made
+    models.credit = true;
     let mut pair = match world::open_pair(&ccfg, &lcfg, nab, nba, models).await {
         Some(p) => p,
         None => return,
@@ -452,7 +470,7 @@ async fn run_send(enumerated: bool) {
     let received: Rc<RefCell<Vec<Msg>>> = Rc::new(RefCell::new(Vec::new()));
     let ldone: Slot<Result<(), String>> = Slot::new();
     {
-        let (ld, rec2) = (ldone.clone(), received.clone());
+        let (ld, rec2, manual_steps2) = (ldone.clone(), received.clone(), manual_steps.clone());
         sim::spawn(
             "listener-app",
             sim::in_group(2, async move {
@@ -465,13 +483,43 @@ async fn run_send(enumerated: bool) {
                     }
                     None => return,
                 };
-                r.set_credit_mode(CreditMode::Auto(credit));
-                if sim::op("set_credit", r.set_credit(credit)).await.is_none() {
-                    return;
+                let mut steps = manual_steps2.clone().unwrap_or_default().into_iter();
+                let mut granted_left = 0u32;
+                if manual_steps2.is_some() {
+                    r.set_credit_mode(CreditMode::Manual);
+                    granted_left = steps.next().unwrap_or(0);
+                    if sim::op("set_credit", r.set_credit(granted_left)).await.is_none() {
+                        return;
+                    }
+                } else {
+                    r.set_credit_mode(CreditMode::Auto(credit));
+                    if sim::op("set_credit", r.set_credit(credit)).await.is_none() {
+                        return;
+                    }
                 }
                 loop {
+                    if manual_steps2.is_some() && granted_left == 0 {
+                        // a pause without credit, then the next grant
+                        sim::sleep_ms(pick(&[1u64, 5, 40])).await;
+                        match steps.next() {
+                            Some(g) => {
+                                granted_left = g;
+                                if sim::op("set_credit", r.set_credit(g)).await.is_none() {
+                                    return;
+                                }
+                            }
+                            None => {
+                                // everything was granted: cancelled sends never arrive, so be generous now
+                                granted_left = u32::MAX;
+                                if sim::op("set_credit", r.set_credit(100)).await.is_none() {
+                                    return;
+                                }
+                            }
+                        }
+                    }
                     match sim::op("peer recv", r.recv::<Body<Value>>()).await {
                         Some(Ok(d)) => {
+                            granted_left = granted_left.saturating_sub(1);
                             if sim::op("peer accept", r.accept(&d)).await.is_none() {
                                 return;
                             }
